@@ -183,5 +183,5 @@ def obligations(tier, seed):
                 ids = ["assembly"] + ids[1:]
             obs.append(Ob("two-level re-use m=%d (product id %r, inputs %s)" % (m, pid, ids), ob_provenance,
                           dict(m=m, sym=-1, n=9, ids=ids, pid=pid, pname="lvl1", level2=True),
-                          samples=5, cost=4000, expect_witness=("inner-source-survives",)))
+                          samples=5, cost=4000))
     return obs
